@@ -25,7 +25,8 @@ RULE = ("sweep: each of the 128 ASCII code points and 24 chosen non-ASCII scalar
         "record into a good writer (each encode call is one record, one line, whatever failed before); a length "
         "sweep (messages of n plain bytes followed by an escaped character, plain messages and two-piece messages "
         "for n = 0..2299 (thorough 3399) [quick: the ~105 lengths around every multiple of 128]) so that every byte offset of the "
-        "line is the end of some writer call. "
+        "line is the end of some writer call. For records with MDC entries the encode is repeated into a sink that "
+        "refuses exactly one write call, for every position of that call: an Ok result must come with the complete line. "
         "non-trivial = some string contains a byte that must be escaped "
         "(quote, backslash, < 0x20); distinct = distinct case line")
 ASSUMPTIONS = [
@@ -303,6 +304,9 @@ def direct_oracle(c, out, tid):
 def judge(c, iv, mv):
     """('ok', None) | ('fail', text): the property fails on this case | ('corr', text): the line still
     denotes exactly the record but its bytes are not the model's (e.g. members reordered)"""
+    if isinstance(iv, list) and len(iv) == 4 and isinstance(iv[3], int) and iv[3] > 0:
+        return ("fail", "a sink that refuses ONE write call (WouldBlock): for %d position(s) of the refused call encode "
+                        "returned Ok although what it wrote is not the record's line" % iv[3])
     if not (isinstance(iv, list) and len(iv) == 3 and isinstance(iv[0], bytes)):
         return ("fail", "encode failed or panicked: %r" % (iv,))
     out, tid, order = iv
